@@ -370,6 +370,25 @@ var Items = []Item{
 	{ID: "map-missing-struct", Decls: "type Mv2%N% struct {\n\ta uint64\n\tb bool\n}", Core: "m := make(map[uint64]Mv2%N%)\n\tm[1] = Mv2%N%{a: 5, b: true}\n\tx := m[3]\n\ty := m[1]\n\tif !x.b {\n\t\tr = x.a + y.a + 1\n\t}", NoCtx: true},
 	{ID: "map-missing-slice", Core: "m := make(map[uint64][]uint64)\n\tm[1] = make([]uint64, 2)\n\tr = uint64(len(m[3]))*10 + uint64(len(m[1])) + 1", NoCtx: true},
 	{ID: "map-missing-pointer", Core: "m := make(map[uint64]*uint64)\n\tp := new(uint64)\n\tm[1] = p\n\tif m[3] == nil {\n\t\tr = 1\n\t}\n\tif m[1] != nil {\n\t\tr += 2\n\t}", NoCtx: true},
+	// package-level const / var specs × number of names × how the values are supplied (seeded change C07-9; on the
+	// unchanged tree all names but the first were silently dropped)
+	{ID: "pkg-const-two-names", Decls: "const ca%N%, cb%N% uint64 = 1, 2", Core: "r = ca%N%*10 + cb%N%"},
+	{ID: "pkg-const-two-names-untyped", Decls: "const cc%N%, cd%N% = 3, 4", Setup: "var x uint64 = 1", Core: "r = x + cc%N%*10 + cd%N%"},
+	{ID: "pkg-const-group-two-names", Decls: "const (\n\tce%N%, cf%N% uint64 = 5, 6\n\tcg%N%        uint64 = 7\n)", Core: "r = ce%N%*100 + cf%N%*10 + cg%N%"},
+	{ID: "pkg-var-two-names", Decls: "var va%N%, vb%N% uint64 = 3, 4", Core: "r = va%N%*10 + vb%N%"},
+	{ID: "pkg-var-two-names-from-call", Decls: "func pr%N%() (uint64, uint64) {\n\treturn 5, 6\n}\n\nvar lo%N%, hi%N% uint64 = pr%N%()", Core: "r = lo%N%*10 + hi%N%"},
+	{ID: "pkg-var-two-names-from-call-untyped", Decls: "func pr%N%() (uint64, uint64) {\n\treturn 5, 6\n}\n\nvar lo%N%, hi%N% = pr%N%()", Core: "r = lo%N%*10 + hi%N%"},
+	{ID: "pkg-var-initialised-by-call", Decls: "func one%N%() uint64 {\n\treturn 9\n}\n\nvar vi%N% uint64 = one%N%()", Core: "r = vi%N% + 1"},
+	{ID: "pkg-var-two-names-no-value", Decls: "var vz%N%, vy%N% uint64", Core: "r = vz%N% + vy%N% + 1"},
+	// slice literals × element form (positional, keyed, keyed then positional, gaps, out of order; seeded change C02-13)
+	{ID: "slice-literal-three-elements", Core: "s := []uint64{4, 5, 6}\n\tr = uint64(len(s))*1000 + s[0]*100 + s[1]*10 + s[2]", NoCtx: true},
+	{ID: "slice-literal-keyed-gap", Core: "s := []uint64{2: 7}\n\tr = uint64(len(s))*100 + s[0]*10 + s[2]", NoCtx: true},
+	{ID: "slice-literal-keyed-then-positional", Core: "s := []uint64{2: 7, 9}\n\tr = uint64(len(s))*100 + s[2]*10 + s[3]", NoCtx: true},
+	{ID: "slice-literal-keyed-then-positional-next-slot", Core: "s := []uint64{1: 7, 9}\n\tr = uint64(len(s))*100 + s[1]*10 + s[2]", NoCtx: true},
+	{ID: "slice-literal-positional-then-keyed", Core: "s := []uint64{3, 2: 8}\n\tr = uint64(len(s))*100 + s[0]*10 + s[2]", NoCtx: true},
+	{ID: "slice-literal-keys-out-of-order", Core: "s := []uint64{1: 5, 0: 6}\n\tr = uint64(len(s))*100 + s[0]*10 + s[1]", NoCtx: true},
+	{ID: "slice-literal-constant-key", Decls: "const ki%N% = 2", Core: "s := []uint64{ki%N%: 5, 6}\n\tr = uint64(len(s))*100 + s[2]*10 + s[3]", NoCtx: true},
+	{ID: "slice-literal-of-structs", Decls: "type Sl%N% struct {\n\ta uint64\n}", Core: "s := []Sl%N%{{a: 1}, {a: 2}}\n\tr = uint64(len(s))*10 + s[1].a", NoCtx: true},
 	// builtins with fewer explicit arguments than operands: append(s), and a multi-valued call that supplies
 	// both operands (reported by the seed agent of C07-8: copy(g()) made goose panic)
 	{ID: "append-single-argument", Setup: "s := make([]uint64, 2)", Core: "s2 := append(s)\n\tr = uint64(len(s2))"},
